@@ -53,6 +53,13 @@ NEEDED = {
  'C12-8': 'the role key named in its slot without signing: a cell per golden call in C08 and a variant of every role request in C12',
  'C10-7': '(caught by the sibling checks C08 and C12: the deleverage bracket leaves the marker)',
  'C10-8': 'reduce-only collateral portfolio in the amount grid (C07 caught it as it stood)',
+ 'C02-8': 'forged root RK: a bank wiped out by bankruptcy (deposit share value 0, killed) that still has a borrower',
+ 'C06-7': 'the price-cache crank in the alphabet + the rule that a bank whose interest clock moved carries the accrued share values',
+ 'C06-9': '(same change as C06-4; caught by the sibling check C08)',
+ 'C13-9': 'roots with frozen bank settings (the frozen configure path re-implements the rules); C12 caught it as it stood',
+ 'C14-7': 'e-mode pair in the reduce-only valuation test (C04 caught it as it stood)',
+ 'C15-8': 'the user probe is a battery (deposit, withdraw, close-balance of an empty position); C14 caught it as it stood',
+ 'C16-8': 'forged root F4 (a disabled account with positions) and the rule that the account a disabled source is moved to is disabled too',
  'C19-8': "the reference keeps its own ledger of when a position was last touched; rewards switched off / on in the sequences; a budget variant that starts switched off",
  'C08-7': '(caught by the sibling check C10: two start instructions in one transaction)',
  'C08-8': "C12 'nobody' cells: the permissionless staked-settings propagation aimed at ordinary banks",
